@@ -29,6 +29,14 @@
 #include <vector>
 
 extern "C" void __sanitizer_set_death_callback(void (*)(void)) __attribute__((weak));
+// defaults for stand-alone runs of an engine (the driver sets the same through the environment);
+// leaks are not part of any property: face <-> cell is a shared_ptr cycle by design
+extern "C" __attribute__((weak, used)) const char* __asan_default_options() {
+    return "detect_leaks=0:exitcode=77:abort_on_error=0:allocator_may_return_null=1";
+}
+extern "C" __attribute__((weak, used)) const char* __ubsan_default_options() {
+    return "halt_on_error=1:exitcode=77:print_stacktrace=1";
+}
 
 #ifndef VERIF_VARIANT
 #define VERIF_VARIANT "san"
